@@ -248,8 +248,39 @@ def PrevKind.kw : PrevKind → Text
   | .msgid => "msgid".toList
   | .msgidPlural => "msgid_plural".toList
 
+/-- one source reference of a `#:` line -/
+inductive RefItem where
+  /-- `file:123` -/
+  | withLine (file : Text) (line : List (Fin 10))
+  /-- a bare name (no colon in it) -/
+  | noLine (name : Text)
+
+def RefItem.token : RefItem → Text
+  | .withLine file line => file ++ ':' :: line.map fun d => digitChar d.val
+  | .noLine name => name
+
+/-- the `(file, line)` pair polib records -/
+def RefItem.pair : RefItem → Text × Text
+  | .withLine file line => (file, line.map fun d => digitChar d.val)
+  | .noLine name => (name, [])
+
+def RefItem.Valid : RefItem → Prop
+  | .withLine file line => line ≠ [] ∧ ∀ c ∈ file, I18n.Po.pyIsSpace c = false
+  | .noLine name => name ≠ [] ∧ ':' ∉ name ∧ ∀ c ∈ name, I18n.Po.pyIsSpace c = false
+
+/-- the references of one `#:` line, each with the blanks before it (none needed before the first) -/
+def refsBody : List (Text × RefItem) → Text
+  | [] => []
+  | (sep, r) :: rest => sep ++ r.token ++ refsBody rest
+
+def refsValid : Bool → List (Text × RefItem) → Prop
+  | _, [] => True
+  | first, (sep, r) :: rest => Blank sep ∧ (first = false → sep ≠ []) ∧ r.Valid ∧ refsValid false rest
+
 /-- a comment line of an entry (as `Codecs.open` hands it to polib: an atypical `#text` is already `# text`) -/
 inductive CommentSp where
+  /-- source references `#: a.c:1 b.c:2` -/
+  | refs (ws : Char) (items : List (Text × RefItem)) (rpad : Text)
   /-- translator comment `# text` (`#` alone for an empty line) -/
   | tcomment (text rpad : Text)
   /-- extracted comment `#. text` -/
@@ -265,6 +296,7 @@ def CommentSp.lines : CommentSp → List Text
   | .tcomment text rpad => ['#' :: ((if text = [] then [] else ' ' :: text) ++ rpad)]
   | .extracted ws text rpad => ['#' :: '.' :: ws :: (text ++ rpad)]
   | .flags ws ps rpad => ['#' :: ',' :: ws :: (flagBody ps ++ rpad)]
+  | .refs ws items rpad => ['#' :: ':' :: ws :: (refsBody items ++ rpad)]
   | .previous kind psep x => x.lines (.previous psep) kind.kw
   | .noise z => [z.render]
 
@@ -278,6 +310,7 @@ def CommentSp.Valid (E : Codec) : CommentSp → Prop
   | .flags ws ps rpad =>
     blankChar ws ∧ ps ≠ [] ∧ (∀ x ∈ ps, x.Valid I18n.Po.pyIsSpace) ∧ flagBody ps ≠ [] ∧ endsNonSpace (flagBody ps) ∧ allSpace rpad
   | .previous _ psep x => psep ≠ [] ∧ Blank psep ∧ x.Valid E
+  | .refs ws items rpad => blankChar ws ∧ items ≠ [] ∧ refsValid true items ∧ allSpace rpad
   | .noise z => z.Valid
 
 /-- `acc` and one more line of comment text (polib puts a line feed between them unless `acc` is empty) -/
@@ -288,6 +321,7 @@ def CommentSp.apply (c : I18n.Po.Entry) : CommentSp → I18n.Po.Entry
   | .tcomment text _ => { c with tcomment := joinComment c.tcomment text }
   | .extracted _ text _ => { c with comment := joinComment c.comment text }
   | .flags _ ps _ => { c with flags := c.flags ++ ps.map FlagPiece.item }
+  | .refs _ items _ => { c with occurrences := c.occurrences ++ items.map fun x => x.2.pair }
   | .previous .msgctxt _ x => { c with previousMsgctxt := some x.text }
   | .previous .msgid _ x => { c with previousMsgid := some x.text }
   | .previous .msgidPlural _ x => { c with previousMsgidPlural := some x.text }
